@@ -48,7 +48,7 @@ for sid in sorted(os.listdir(ROOT)):
         caught += f" (re-run at {ah.get('repo_head')})"
     if ah.get("obsolete"):
         caught = f"OBSOLETE at {ah.get('repo_head')}: " + ah["obsolete"][:200] + " — when recorded: " + "; ".join(
-            f"{k}: " + ("caught" if c["exit"] else "MISSED") for k, c in v.get("checks", {}).items())
+            f"{k}: " + ("caught" if c.get("exit") else "MISSED") for k, c in v.get("checks", {}).items() if "exit" in c)
     elif v.get("obsolete"):
         caught = "OBSOLETE: " + v["obsolete"][:160]
     rows.append(f"| {sid} | {m.get('property')} | {m.get('title','')[:90]} | {m.get('needs_to_manifest','')[:110]} | {'yes' if (v.get('confirmed') or v.get('confirmed_at_creation') or (ah and not ah.get('obsolete') and ah.get('demo_without_change_exit') == 0 and ah.get('demo_with_change_exit') not in (0, None) and (ah.get('baseline') or {}).get('missing') == 0)) else 'no'} | {caught} |")
